@@ -22,6 +22,7 @@ Protocol (one case = a HISTORY over several Ribosome instances):
   filt <id> <set>                 instance.filters = builtin snapshot + the set's custom filters   (same)
   render <id> <sequence>          -> ok <text> <warned names> <names in Protein.variables_bound> | raise:<Class>      (synthesize)
   translate <id> <name>
+  trobj <id> <mrnaName|-> <sequence>   translate(mRNA(sequence, name=mrnaName), **ctx): the third entry form, an mRNA object
 """
 from __future__ import annotations
 
@@ -321,7 +322,8 @@ DUNDERS = ["__class__", "__init__", "__dict__", "__name__", "__doc__", "__len__"
 # that entry point (Python raises TypeError before the body runs).  The oracle makes no claim when that happens - and
 # only then; every other name must render as data.  Fixed here (not read from the tree): a tree that captures more
 # names has changed behaviour.
-CALL_POSITIONAL = {"render": {"self", "sequence", "template"}, "translate": {"self", "template"}}
+CALL_POSITIONAL = {"render": {"self", "sequence", "template"}, "translate": {"self", "template"},
+                   "trobj": {"self", "template"}}
 
 
 def sig_names(module) -> list:
@@ -505,6 +507,7 @@ class C12(Prop):
             elif o[0] == "tmpl": lines.append(f"tmpl {o[1]} {hexs(o[2])} {hexs(o[3])}")
             elif o[0] == "render": lines.append(f"render {o[1]} {hexs(o[2])}")
             elif o[0] == "translate": lines.append(f"translate {o[1]} {hexs(o[2])}")
+            elif o[0] == "trobj": lines.append(f"trobj {o[1]} {hexs(o[2])} {hexs(o[3])}")
             elif o[0] == "strict": lines.append(f"strict {o[1]} {int(o[2])}")
             elif o[0] == "filt": lines.append(f"filt {o[1]} {o[2]}")
             elif o[0] == "ctx": lines += [enc_ctx(o[1]), "fenv"]
@@ -581,7 +584,9 @@ class C12(Prop):
                     mk()
                 i = R.randrange(len(insts))
                 r = R.random()
-                if r < 0.8 or not names:
+                if r < 0.12:
+                    ops.append(("trobj", i, R.choice(["", "_direct_", "t0", "zz"]), R.choice(tops)))
+                elif r < 0.8 or not names:
                     ops.append(("render", i, R.choice(tops)))
                 else:
                     ops.append(("translate", i, R.choice(names + ["nope"])))
@@ -721,7 +726,8 @@ class C12(Prop):
                 ops += [("new", i, strict, "none"), ("tmpl", i, "inc", incl), ("tmpl", i, "top", shape)]
             for v in vals:
                 ops.append(("ctx", {"b": "B"} if v is None else {V: v, "b": "B"}))
-                ops += [("render", 0, shape), ("translate", 0, "top"), ("render", 1, shape), ("translate", 1, "top")]
+                ops += [("render", 0, shape), ("translate", 0, "top"), ("trobj", 0, "top", shape), ("render", 1, shape),
+                        ("translate", 1, "top"), ("trobj", 1, "", shape)]
             nameprobes.append(self.hcase({}, ops, "variable named like a parameter / attribute / keyword / dunder"))
         # tag-spelling probes: every regex of the implementation is exact about where whitespace may stand and what a
         # name is; templates that are ALMOST tags must stay text (correspondence; the reference makes no claim)
@@ -852,11 +858,13 @@ class C12(Prop):
             elif op == "filt" and len(t) == 3 and t[1] in insts and t[2] in CUSTOM:
                 insts[t[1]].filters = dict(self.given(t[2]))
                 obs.append("ok")
-            elif op in ("render", "translate") and len(t) == 3 and t[1] in insts:
+            elif (op in ("render", "translate") and len(t) == 3 or op == "trobj" and len(t) == 4) and t[1] in insts:
                 rb = insts[t[1]]
                 try:
                     if op == "render":
                         p = rb.synthesize(unhexs(t[2]), **py)
+                    elif op == "trobj":
+                        p = rb.translate(m.mRNA(sequence=unhexs(t[3]), name=unhexs(t[2])), **py)
                     else:
                         p = rb.translate(unhexs(t[2]), **py)
                     ws = [hexs(w.rsplit(": ", 1)[-1]) for w in p.warnings]
@@ -910,9 +918,9 @@ class C12(Prop):
                 insts[t[1]]["strict"] = t[2] == "1"
             elif op == "filt" and len(t) == 3 and t[1] in insts and t[2] in CUSTOM:
                 insts[t[1]]["set"] = t[2]
-            elif op in ("render", "translate") and len(t) == 3 and t[1] in insts:
+            elif (op in ("render", "translate") and len(t) == 3 or op == "trobj" and len(t) == 4) and t[1] in insts:
                 i = insts[t[1]]
-                yield (idx, op, unhexs(t[2]), i["strict"], dict(i["templates"]), ab, fenv.get(i["set"], {}),
+                yield (idx, op, unhexs(t[3] if op == "trobj" else t[2]), i["strict"], dict(i["templates"]), ab, fenv.get(i["set"], {}),
                        given.get(i["set"], []), i["set"])
 
     def oracle(self, case, obs, extra):
@@ -1048,9 +1056,10 @@ class C12(Prop):
                         _st, f, n, k, r = e.split(":")
                         if k == "o" and has_brace(unhexs(r)):
                             return FINDING
-                elif (op in ("tmpl", "new") and len(t) >= 4) or (op == "render" and len(t) == 3) or (op in ("reg", "put") and len(t) == 5):
+                elif (op in ("tmpl", "new") and len(t) >= 4) or (op == "render" and len(t) == 3) or (op in ("reg", "put") and len(t) == 5) \
+                        or (op == "trobj" and len(t) == 4):
                     srcs = ([unhexs(e.split(":")[2]) for e in t[4:]] if op == "new" else
-                            [unhexs(t[3] if op == "tmpl" else t[4] if op in ("reg", "put") else t[2])])
+                            [unhexs(t[3] if op in ("tmpl", "trobj") else t[4] if op in ("reg", "put") else t[2])])
                     for tok in (tk for src_ in srcs for tk in tokenize(src_)):
                         if tok[0] == "pipe" and has_brace(tok[2]):
                             return FINDING
@@ -1064,7 +1073,7 @@ class C12(Prop):
         return FINDING if (ends and starts) else None
 
     def nontrivial(self, case, obs):
-        return any("7b.7b" in l for l in case["lines"] if l.startswith(("render", "tmpl")))
+        return any("7b.7b" in l for l in case["lines"] if l.startswith(("render", "tmpl", "trobj")))
 
 
 PROP = C12()
